@@ -2,6 +2,7 @@ import Std.Data.HashMap
 import Driver.Proto
 import Driver.Loop
 import Driver.C01
+import Driver.C01E
 import Driver.C01N
 import Driver.C02
 import Driver.C03
@@ -29,6 +30,7 @@ open Verif Verif.Driver
 
 def allHandlers : List (String × Handler) :=
   C01.handlers ++
+  C01E.handlers ++
   C01N.handlers ++
   C02.handlers ++
   C03.handlers ++
